@@ -55,6 +55,7 @@ Mk24x(ci, si, cl, sl, k, p, down, au, cert, tc, ts, tw) ==
              prefer |-> p, key |-> Keys[k], auth |-> au]
       n == Negotiate(cc, sc, down)
   IN [id |-> 0, c |-> cc, s |-> sc, down |-> down, two |-> down = 0 /\ (tw \/ h % 2 = 0), ccert |-> cert,
+      reconf |-> FALSE, s2 |-> sc,
       exp |-> [vers |-> n.vers, suites |-> SetToSeq(n.suites), alpn |-> SetToSeq(n.alpn),
                canary |-> n.canary, abort |-> n.abort, mode |-> n.mode]]
 
@@ -83,15 +84,31 @@ Down24 ==
               d \in {dd \in {10, 11, 12} : dd < Ranges[ci][2]} } :
           ci \in 1..Len(Ranges), si \in 1..Len(Ranges), k \in 1..2 }
 
+\* server reconfiguration between issuance and presentation of a ticket (the ticket keys stay): the
+\* negotiated suite leaves the server's list, its maximum version drops below the negotiated one, its
+\* curves change, its preference flag flips.  Both sides use tickets; a second connection follows.
+Variants24(x) ==
+  LET n == Negotiate(x.c, x.s, 0)
+      drop == Filter(CfgLegacy(x.s), LAMBDA y : y \notin n.suites)
+  IN (IF n.mode = "must" /\ drop # <<>> THEN {[x.s EXCEPT !.suites = drop]} ELSE {})
+     \cup (IF n.vers > 10 /\ n.vers - 1 >= x.s.min THEN {[x.s EXCEPT !.max = n.vers - 1]} ELSE {})
+     \cup {[x.s EXCEPT !.curves = <<24>>], [x.s EXCEPT !.prefer = ~x.s.prefer]}
+Reconf24 ==
+  UNION { UNION { LET x == Mk24x(ci, si, l, l, k, (ci + si + k + l + Seed) % 2 = 0, 0, 0, FALSE, 1, 1, TRUE)
+                  IN { [x EXCEPT !.reconf = TRUE, !.s2 = v] : v \in Variants24(x) } :
+                  l \in IF Tier = "quick" THEN {((ci + si + k + Seed) % 3) + 1} ELSE 1..3 } :
+          ci \in 1..Len(Ranges), si \in 1..Len(Ranges), k \in 1..Len(Keys) }
+
 Number(set) == LET q == SetToSeq(set) IN [i \in 1..Len(q) |-> [q[i] EXCEPT !.id = i]]
 
-Cases24 == Number(Honest24 \cup Down24 \cup Auth24)
+Cases24 == Number(Honest24 \cup Down24 \cup Auth24 \cup Reconf24)
 
 ASSUME Gen = "C24" =>
          /\ ndJsonSerialize("c24_cases.ndjson", Cases24)
          /\ PrintT(<<"GENERATED", Len(Cases24),
                      Cardinality({i \in 1..Len(Cases24) : Cases24[i].exp.mode = "must"}),
-                     Cardinality({i \in 1..Len(Cases24) : Cases24[i].down # 0})>>)
+                     Cardinality({i \in 1..Len(Cases24) : Cases24[i].down # 0}),
+                     Cardinality({i \in 1..Len(Cases24) : Cases24[i].reconf})>>)
 
 \* sanity of the negotiation function itself over the generated domain (specification lemmas):
 \* the picked version is supported by both, every allowed suite is offered, enabled and usable.
@@ -167,28 +184,44 @@ SScens27 == {"Trusted", "UntrustedRoot", "Expired", "NotYetValid", "WrongName", 
              "NameIP4Listed", "NameIP4Unlisted", "NameIP6BracketListed", "NameIP6BracketUnlisted",
              "NameIP6ZoneListed", "NameDNSTrailingDot",
              "CorruptSKXSig", "CorruptSKXParams", "CorruptServerFinished", "CorruptClientFinished"}
+             \* (the structural signature corruptions ServerSigBad / ClientSigBad are added in Cases27)
 CScens27 == {"NoClientCert", "ClientTrusted", "ClientUntrusted", "ClientExpired", "ClientWrongKey",
              "ClientServerEKU", "CorruptClientCV"}
-SApplicable(sc, co) == sc \in {"CorruptSKXSig", "CorruptSKXParams"} => co[1] <= 12 /\ Tbl(co[2]).kx # "RSA"
+\* the server signs (ServerKeyExchange / TLS 1.3 CertificateVerify) unless the key exchange is RSA; the
+\* DHE_RSA key agreement of zcrypto insists on a concrete RSA key object, so the key-substituting peer
+\* cannot be built for it (its signature check is the RSA one exercised through ECDHE_RSA)
+ServerSigns(co) == co[1] = 13 \/ Tbl(co[2]).kx \notin {"RSA", "DHE_RSA"}
+SApplicable(sc, co) == /\ sc \in {"CorruptSKXSig", "CorruptSKXParams"} => co[1] <= 12 /\ Tbl(co[2]).kx # "RSA"
+                       /\ sc \in ServerSigBad => ServerSigns(co)
 CApplicable(cs, co) == cs = "CorruptClientCV" => co[1] <= 12
 CKeyFor(co, a, i) == IF co[1] < 12 THEN Pick(<<"P", "R">>, a + i + co[2]) ELSE Pick(<<"E", "P", "R">>, a + i + co[2] + Seed)
 
-Mk27(co, sc, cs, a) ==
-  LET o == [vers |-> co[1], suite |-> co[2], key |-> co[3], scen |-> sc, cscen |-> cs, auth |-> a,
+Mk27x(co, sc, cs, a, cas, ck) ==
+  LET o == [vers |-> co[1], suite |-> co[2], key |-> co[3], scen |-> sc, cscen |-> cs, auth |-> a, cas |-> cas,
             fired |-> IF cs = "CorruptClientCV" /\ a >= 1 THEN cs
                       ELSE IF sc \in ServerWire \cup {"CorruptClientFinished"} THEN sc ELSE "",
+            sigfired |-> IF sc \in ServerSigBad /\ ServerSigns(co) THEN sc ELSE "",
+            csigfired |-> IF cs \in ClientSigBad /\ a >= 1 THEN cs ELSE "",
             std |-> [server_chain_ok |-> ExpectedStd(sc).chain, server_key_ok |-> ExpectedStd(sc).key,
-                     client_sent |-> ExpectedCStd(cs).sent, client_chain_ok |-> ExpectedCStd(cs).chain,
-                     client_key_ok |-> ExpectedCStd(cs).key]]
+                     client_sent |-> ExpectedCStd(cs, cas).sent, client_chain_ok |-> ExpectedCStd(cs, cas).chain,
+                     client_key_ok |-> ExpectedCStd(cs, cas).key]]
   IN [id |-> 0, vers |-> co[1], suite |-> co[2], key |-> co[3], scen |-> sc, cscen |-> cs, auth |-> a,
-      ckey |-> CKeyFor(co, a, Len(cs)), exp |-> AuthDemand(o)]
+      ckey |-> ck, cas |-> cas, exp |-> AuthDemand(o)]
+Mk27(co, sc, cs, a) == Mk27x(co, sc, cs, a, "with", CKeyFor(co, a, Len(cs)))
+CKeys27(co) == IF co[1] < 12 THEN {"P", "R"} ELSE {"E", "P", "R"}
 
 Cases27 == Number(
-  IF Tier = "quick"
-  THEN { Mk27(co, sc, "NoClientCert", 0) : co \in Combos27, sc \in SScens27 }
-       \cup { Mk27(co, "Trusted", cs, a) : co \in Combos27, cs \in CScens27, a \in 0..4 }
-       \cup { Mk27(co, sc, "ClientTrusted", 4) : co \in Combos27, sc \in {"WrongKey", "Expired", "CorruptServerFinished"} }
-  ELSE { Mk27(co, sc, cs, a) : co \in Combos27, sc \in SScens27, cs \in CScens27, a \in 0..4 } )
+  (IF Tier = "quick"
+   THEN { Mk27(co, sc, "NoClientCert", 0) : co \in Combos27, sc \in SScens27 }
+        \cup { Mk27(co, "Trusted", cs, a) : co \in Combos27, cs \in CScens27, a \in 0..4 }
+        \cup { Mk27(co, sc, "ClientTrusted", 4) : co \in Combos27, sc \in {"WrongKey", "Expired", "CorruptServerFinished"} }
+   ELSE { Mk27(co, sc, cs, a) : co \in Combos27, sc \in SScens27, cs \in CScens27, a \in 0..4 })
+  \* structurally wrong signatures on both proof-of-possession paths, every key type
+  \cup { Mk27x(co, sc, "ClientTrusted", a, "with", "P") : co \in Combos27, sc \in ServerSigBad, a \in {0, 4} }
+  \cup UNION { { Mk27x(co, "Trusted", cs, a, "with", ck) : ck \in CKeys27(co), cs \in ClientSigBad, a \in 1..4 } : co \in Combos27 }
+  \* the server's ClientCAs: nothing configured, an empty pool, a pool without / with the client's root
+  \cup { Mk27x(co, "Trusted", cs, a, cas, CKeyFor(co, a, Len(cas))) : co \in Combos27,
+          cs \in {"NoClientCert", "ClientTrusted", "ClientUntrusted", "ClientExpired"}, a \in 0..4, cas \in {"nil", "empty", "without"} } )
 
 Cases27A == SelectSeq(Cases27, LAMBDA x : SApplicable(x.scen, <<x.vers, x.suite, x.key>>) /\ CApplicable(x.cscen, <<x.vers, x.suite, x.key>>)
                                          /\ ~(x.cscen = "CorruptClientCV" /\ x.scen \in ServerWire \cup {"CorruptClientFinished"}))
@@ -214,7 +247,7 @@ SctClasses == {"good1", "good2", "trunc", "badver", "short"}
 SctLists == { <<a>> : a \in SctClasses } \cup { <<a, b>> : a \in SctClasses, b \in SctClasses }
             \cup { <<a, b, c>> : a \in {"good1", "trunc"}, b \in SctClasses, c \in SctClasses }
 Base28(v, suite, key, force) ==
-  [id |-> 0, down |-> 0, two |-> FALSE, ccert |-> FALSE, scts |-> <<>>, skip |-> FALSE, rwh |-> 0, rws |-> 0,
+  [id |-> 0, down |-> 0, two |-> FALSE, ccert |-> FALSE, scts |-> <<>>, skip |-> FALSE, rwh |-> 0, rws |-> 0, late |-> "",
    c |-> [min |-> v, max |-> v, suites |-> <<suite>>, alpn |-> <<>>, curves |-> <<>>, tickets |-> TRUE, force |-> force,
           prefer |-> FALSE, key |-> "", auth |-> 0],
    s |-> [min |-> v, max |-> v, suites |-> <<suite>>, alpn |-> <<>>, curves |-> <<>>, tickets |-> TRUE, force |-> FALSE,
@@ -223,15 +256,23 @@ Sct28 == { [Base28(12, 49199, "R", FALSE) EXCEPT !.scts = l] : l \in SctLists }
          \cup { [Base28(11, 49171, "R", FALSE) EXCEPT !.scts = l] : l \in SctLists }
 Rw28 == { [Base28(12, su, "R", TRUE) EXCEPT !.skip = sk, !.rwh = h, !.rws = g] :
             su \in {158, 51, 107, 49199}, sk \in BOOLEAN, h \in {1, 2, 4, 5, 6, 9}, g \in {1, 2, 3, 9} }
+\*  (c) client options that alter the ClientHello after it has been built (ForceSessionTicketExt,
+\*      SignedCertificateTimestampExt, the former also with SessionTicketsDisabled) x with / without a
+\*      session cache x every version; with a cache a second connection follows
+LateOpts == {"ticket", "sct", "ticket+sct", "ticket-disabled"}
+Late28 == { [Base28(co[1], co[2], co[3], FALSE) EXCEPT !.late = l, !.c.tickets = tk, !.two = tk] :
+              co \in {<<10, 47, "R">>, <<11, 49171, "R">>, <<12, 49199, "R">>, <<12, 49195, "E">>, <<13, 4865, "P">>},
+              l \in LateOpts, tk \in BOOLEAN }
 Cases28 == Number(
-  { [x EXCEPT !.two = (x.c.tickets /\ x.s.tickets)] @@ [scts |-> <<>>, skip |-> FALSE, rwh |-> 0, rws |-> 0] :
+  { [x EXCEPT !.two = (x.c.tickets /\ x.s.tickets)] @@ [scts |-> <<>>, skip |-> FALSE, rwh |-> 0, rws |-> 0, late |-> ""] :
       x \in {y \in Honest24 : y.exp.mode = "must"} }
-  \cup { x @@ [exp |-> [mode |-> "scripted"]] : x \in Sct28 \cup Rw28 } )
+  \cup { x @@ [exp |-> [mode |-> "scripted"]] : x \in Sct28 \cup Rw28 \cup Late28 } )
 ASSUME Gen = "C28" =>
          /\ ndJsonSerialize("c28_cases.ndjson", Cases28)
          /\ PrintT(<<"GENERATED", Len(Cases28), Cardinality({i \in 1..Len(Cases28) : Cases28[i].two}),
                      Cardinality({i \in 1..Len(Cases28) : Cases28[i].scts # <<>>}),
-                     Cardinality({i \in 1..Len(Cases28) : Cases28[i].rwh # 0})>>)
+                     Cardinality({i \in 1..Len(Cases28) : Cases28[i].rwh # 0}),
+                     Cardinality({i \in 1..Len(Cases28) : Cases28[i].late # ""})>>)
 
 -----------------------------------------------------------------------------
 (* C32: the adversary actions of TLSHandshakeMC (A_Corrupt, A_Alter, A_Drop, A_Insert, EnvClose)
